@@ -105,4 +105,130 @@ def IndexSite.ok (s : IndexSite) : Bool :=
   | .const k => decide (k < lowerBound s.conds)
   | .fromEnd k => decide (1 ≤ k) && decide (k ≤ lowerBound s.conds)
 
+/-! ## argument slices: index / slice expressions under conditions on the length, closed under ∧ / ∨,
+    with an index variable `i` that a loop or a comparison bounds by the length -/
+
+/-- a condition on `len(s)` (and on the site's index variable) -/
+inductive LenProp where
+  | atom (c : LenCond)
+  | varLt                    -- i < len(s) for the index variable i of the site
+  | and (a b : LenProp)
+  | or (a b : LenProp)
+deriving DecidableEq, Repr
+
+def LenProp.holds (len i : Nat) : LenProp → Prop
+  | .atom c => c.holds len
+  | .varLt => i < len
+  | .and a b => a.holds len i ∧ b.holds len i
+  | .or a b => a.holds len i ∨ b.holds len i
+
+def LenCond.eval (len : Nat) : LenCond → Bool
+  | .ge k => decide (k ≤ len)
+  | .lt k => decide (len < k)
+  | .eq k => decide (len = k)
+  | .notLt k => !decide (len < k)
+  | .notEq k => !decide (len = k)
+
+/-- evaluation with the truth value of `i < len` given -/
+def LenProp.eval (len : Nat) (vlt : Bool) : LenProp → Bool
+  | .atom c => c.eval len
+  | .varLt => vlt
+  | .and a b => a.eval len vlt && b.eval len vlt
+  | .or a b => a.eval len vlt || b.eval len vlt
+
+/-- the index / slice expression: `s[k]`, `s[len(s)-k]`, `s[i]` (i a variable that is never negative),
+    `s[a:]`, `s[:b]`, `s[a:b]` -/
+inductive ArgIdx where
+  | const (k : Nat)
+  | fromEnd (k : Nat)
+  | var
+  | sliceFrom (a : Nat)
+  | sliceTo (b : Nat)
+  | slice (a b : Nat)
+deriving DecidableEq, Repr
+
+/-- Go's run-time checks: `0 ≤ i < len` for an index, `0 ≤ a ≤ b ≤ len` for a slice expression (`b ≤ cap` in Go;
+    `len ≤ cap`, so this is the stronger demand) -/
+def ArgIdx.inRange (len i : Nat) : ArgIdx → Prop
+  | .const k => k < len
+  | .fromEnd k => 1 ≤ k ∧ k ≤ len
+  | .var => i < len
+  | .sliceFrom a => a ≤ len
+  | .sliceTo b => b ≤ len
+  | .slice a b => a ≤ b ∧ b ≤ len
+
+def ArgIdx.eval (len : Nat) (vlt : Bool) : ArgIdx → Bool
+  | .const k => decide (k < len)
+  | .fromEnd k => decide (1 ≤ k) && decide (k ≤ len)
+  | .var => vlt
+  | .sliceFrom a => decide (a ≤ len)
+  | .sliceTo b => decide (b ≤ len)
+  | .slice a b => decide (a ≤ b) && decide (b ≤ len)
+
+structure ArgIndexSite where
+  family : String
+  fn : String
+  file : String
+  line : Nat
+  slice : String
+  expr : String
+  conds : List LenProp
+  idx : ArgIdx
+deriving DecidableEq, Repr
+
+/-- stable name of a site (no line number) -/
+def ArgIndexSite.key (s : ArgIndexSite) : String :=
+  "argidx:" ++ s.file ++ ":" ++ s.fn ++ ":" ++ s.expr
+
+def LenCond.bound : LenCond → Nat
+  | .ge k => k
+  | .lt k => k
+  | .eq k => k
+  | .notLt k => k
+  | .notEq k => k
+
+def LenProp.bound : LenProp → Nat
+  | .atom c => c.bound
+  | .varLt => 0
+  | .and a b => max a.bound b.bound
+  | .or a b => max a.bound b.bound
+
+/-- the largest constant any condition compares the length with -/
+def condsBound (conds : List LenProp) : Nat := conds.foldl (fun b c => max b c.bound) 0
+
+def ArgIndexSite.okAt (s : ArgIndexSite) (len : Nat) (vlt : Bool) : Bool :=
+  !(s.conds.all (·.eval len vlt)) || s.idx.eval len vlt
+
+/-- the checker: try every length up to one past the largest constant (beyond it no condition changes and the
+    index checks only get easier), with both truth values of `i < len` -/
+def ArgIndexSite.ok (s : ArgIndexSite) : Bool :=
+  (List.range (condsBound s.conds + 2)).all (fun len => s.okAt len true && s.okAt len false)
+
+/-- a use of a tracked slice the extractor has no rule for -/
+structure ArgUnknownSite where
+  family : String
+  fn : String
+  file : String
+  line : Nat
+  slice : String
+  expr : String
+  why : String
+deriving DecidableEq, Repr
+
+def ArgUnknownSite.key (s : ArgUnknownSite) : String :=
+  "argunknown:" ++ s.file ++ ":" ++ s.fn ++ ":" ++ s.expr
+
+/-- the count checks of one function name: it answers with the argument-length error iff the number of its
+    arguments meets one of `rejects` -/
+structure ArgCountCheck where
+  table : String
+  name : String
+  goFunc : String
+  rejects : List LenProp
+  ctx : List String
+deriving DecidableEq, Repr
+
+def ArgCountCheck.rejectsCount (c : ArgCountCheck) (n : Nat) : Bool :=
+  c.rejects.any (·.eval n false)
+
 end Csvq.ErrFacts
